@@ -218,7 +218,7 @@ pub enum Step {
     },
     /// `log`
     Log,
-    /// a countdown loop of `iters` iterations that really burns gas
+    /// a countdown loop of `iters` iterations (about 3000 gas each) that really burns gas
     /// (runs out of gas if the script gas limit is smaller than its cost)
     Burn { iters: u32 },
 }
@@ -458,9 +458,15 @@ fn assemble_inner(steps: &[Step], terminal: Terminal, base: usize) -> (Vec<Instr
                 ins.push(op::log(RegId::ONE, RegId::ZERO, RegId::ONE, RegId::ZERO));
             }
             Step::Burn { iters } => {
+                // each iteration: a (failing, hence cheap to execute) signature recovery = 3000 gas
+                ins.push(op::movi(R1, 160));
+                ins.push(op::aloc(R1));
+                ins.push(op::addi(R1, RegId::HP, 64));
+                ins.push(op::addi(R2, RegId::HP, 128));
                 ins.push(op::movi(R0, (*iters).min(262_143)));
+                ins.push(op::ecr1(RegId::HP, R1, R2));
                 ins.push(op::subi(R0, R0, 1));
-                ins.push(op::jnzb(R0, RegId::ZERO, 0));
+                ins.push(op::jnzb(R0, RegId::ZERO, 1));
             }
         }
     }
